@@ -368,9 +368,31 @@ def render_def(form, ps, doc=None, ret=None, rng=None, wrapper_own=False):
         return dict(src='def f(%s)%s:\n%s' % (plist(), r, body), call='f', bound=0, obj="g['f']", raw="g['f']",
                     fname='f', defname='f')
     if form == 'wrapper':
-        own = 'w0, ' if wrapper_own else ''
-        src = 'def g(%s)%s:\n    return 1\ndef f(%s**kwargs):\n    return g(**kwargs)\n' % (plist(), r, own)
-        return dict(src=src, call='f', bound=0, obj="g['f']", raw="g['g']", fname='f', defname='g')
+        # wrapper_own: False/True (own leading parameter) or a variant name
+        variant = wrapper_own if isinstance(wrapper_own, str) else ('own' if wrapper_own else 'plain')
+        gdef = 'def g(%s)%s:\n    return 1\n' % (plist(), r)
+        raw = "g['g']"
+        if variant == 'own':
+            src = gdef + 'def f(w0, **kwargs):\n    return g(**kwargs)\n'
+        elif variant.startswith('given:'):
+            src = gdef + 'def f(**kwargs):\n    return g(%s=0, **kwargs)\n' % variant.split(':', 1)[1]
+        elif variant == 'deco':
+            src = ('def deco(fn):\n    def w(**kwargs):\n        return fn(**kwargs)\n    return w\n@deco\n'
+                   'def f(%s)%s:\n    return 1\n' % (plist(), r))
+            raw = "g['f'].__closure__[0].cell_contents"
+        elif variant == 'wraps':
+            src = ('import functools\ndef deco(fn):\n    @functools.wraps(fn)\n    def w(**kwargs):\n        return fn(**kwargs)\n'
+                   '    return w\n@deco\ndef f(%s)%s:\n    return 1\n' % (plist(), r))
+            raw = "g['f'].__wrapped__"
+        elif variant == 'class':
+            src = ('class G:\n    def __init__(%s):\n        self.v = 1\ndef f(**kwargs):\n    return G(**kwargs)\n' % plist('self'))
+            raw = "g['G']"
+        elif variant == 'method':
+            src = ('class G:\n    def m(%s)%s:\n        return 1\ndef f(**kwargs):\n    return G().m(**kwargs)\n' % (plist('self'), r))
+            raw = "g['G']().m"
+        else:
+            src = gdef + 'def f(**kwargs):\n    return g(**kwargs)\n'
+        return dict(src=src, call='f', bound=0, obj="g['f']", raw=raw, fname='f', defname='g', variant=variant)
     head = 'class C:\n'
     if form == 'method':
         body = ('        %s\n' % doc if doc else '') + '        return 1\n'
@@ -622,6 +644,12 @@ def _task(t):
         raw = eval(t['raw'], {'g': g})
         sig = inspect.signature(obj)
         rsig = inspect.signature(raw)
+        if t.get('kw_wrapper'):
+            # what reaches the wrapped callable through **kwargs: its keyword-capable parameters, as keyword-only
+            # (validated by the wrapper stream: a call binds against the reported signature iff it runs)
+            P = inspect.Parameter
+            sig = inspect.Signature([p.replace(kind=P.KEYWORD_ONLY) if p.kind in (P.POSITIONAL_OR_KEYWORD, P.KEYWORD_ONLY) else p
+                                     for p in rsig.parameters.values() if p.kind not in (P.POSITIONAL_ONLY, P.VAR_POSITIONAL)])
         res['oracle'] = dict(params=_sig_strings(sig), raw_params=_sig_strings(rsig),
                              sig_text=t['fname'] + str(sig), ok=True)
     except Exception as e:
@@ -978,7 +1006,7 @@ def gen_index(ctx, tasks):
             calls.append(dict(text=text, after=after, before=before, cur=cur, line=base_lines + 1, col=col))
         for i in range(0, len(calls), 120):
             tasks.append(dict(kind='sig', stream='index', meta=(form, d, ps), src=d['src'], obj=d['obj'], raw=d['raw'],
-                              fname=d['fname'], defname=d['defname'], calls=calls[i:i + 120]))
+                              fname=d['fname'], defname=d['defname'], kw_wrapper=(form == 'wrapper'), calls=calls[i:i + 120]))
 
     # exhaustive: parameter lists <= 3 (4 thorough) x star-free prefixes <= 3 x cursors, plain functions
     for kl in kind_lists(4):
@@ -1011,7 +1039,9 @@ def gen_index(ctx, tasks):
         if ctx.rng.random() < 0.5:
             var = ctx.rng.choice(list(itertools.islice(variants(kl), 0, 512)))
         ps = mk_params(kl, names=names, var=var, rng=ctx.rng)
-        form = ctx.rng.choice(['function', 'method', 'classmethod', 'staticmethod', 'init', 'method', 'init'])
+        form = ctx.rng.choice(['function', 'method', 'classmethod', 'staticmethod', 'init', 'method', 'init', 'wrapper'])
+        if form == 'wrapper' and any(p['kind'] == PO and p['default'] is None for p in ps):
+            form = 'function'
         knames = names[:3] + ['zz']
         spec = []
         for _ in range(ctx.rng.randint(8, 16)):
@@ -1057,6 +1087,18 @@ def check_index_case(ctx, coq, form, d, ps, call, out, view, orc_params, stats, 
     trip = [tuple(x) for x in out['triples']]
     idx = out['index']
     py = out.get('py') or dict(status='none')
+    if form == 'wrapper':
+        # the parameters are judged per call: jedi runs the wrapper with the arguments of a syntactically complete call
+        rep = [(a[0], a[1]) for a in (out.get('view') or view)['api']]
+        exp = [(p[0], p[1]) for p in orc_params]
+        if rep != exp:
+            given = {b[1] for b in before if b[0] == 'K'} | ({cur[1]} if cur[0] in ('K', 'KV') else set())
+            cls = 'signature-mismatch'
+            if rep == [p for p in exp if p[0] not in given] and call['after']:
+                cls = 'wrapper-consumes-given-keywords'
+            ctx.deviation(dict(stream='index', cls=cls), dict(where=where, reported=rep, expected=exp, index=idx),
+                          'inside a complete call the wrapper is reported with parameters %r; the wrapped callable has %r' % (rep, exp))
+            py = dict(status='other-signature')     # the index refers to another parameter list: model only
     stats[py['status']] = stats.get(py['status'], 0) + 1
     ctx.count('index', (form, d['src'], call['text'], call['after']),
               nontrivial=len(ps) > 0 and (len(before) > 0 or cur != ('E', '')))
@@ -1114,7 +1156,7 @@ def proc_index(ctx, coq, items):
         view = r['sigview']
         for call, out in zip(t['calls'], r['calls']):
             check_index_case(ctx, coq, form, d, ps, call, out, view, r['oracle']['params'], stats, scan_diff)
-        if view is not None:
+        if view is not None and form != 'wrapper':
             where = dict(form=form, source=d['src'], call=t['calls'][0]['text'])
             check_signature(ctx, 'index', form, ps, view, r['oracle'], where)
             if not r['consistent']:
@@ -1155,7 +1197,7 @@ def gen_wrapper(ctx, tasks):
                          calls=[dict(text='f(', after='', before=None, cur=None)]))
     kls = [kl for kl in kind_lists(4) if kl]
     if ctx.quick:
-        kls = ctx.rng.sample(kls, 75)
+        kls = ctx.rng.sample(kls, 70)
     for kl in kls:
         var = None
         if ctx.rng.random() < 0.6:
@@ -1165,9 +1207,10 @@ def gen_wrapper(ctx, tasks):
             # g(a, /, ...) can never be reached through **kwargs: no call of the wrapper runs at all, and no
             # signature can say so -- degenerate, left out
             continue
-        own = ctx.rng.random() < 0.3
-        d = render_def('wrapper', ps, wrapper_own=own)
-        names = [p['name'] for p in ps] + (['w0'] if own else [])
+        kwable = [p['name'] for p in ps if p['kind'] in (PK, KO)]
+        variant = ctx.rng.choice(['plain', 'plain', 'own', 'deco', 'wraps', 'class', 'method'] + (['given:' + kwable[0]] * 2 if kwable and VK not in kl else []))   # (with **kw in g no signature can exclude the given name)
+        d = render_def('wrapper', ps, wrapper_own=variant)
+        names = [p['name'] for p in ps] + (['w0'] if variant == 'own' else [])
         pc = probe_calls(names)
         tasks.append(dict(kind='sig', stream='wrapper', meta=(d, ps, pc, 'kwargs'), src=d['src'], obj=d['obj'], raw=d['raw'],
                           fname='f', defname='g', probe_calls=pc, calls=[dict(text='f(', after='', before=None, cur=None)]))
@@ -1300,7 +1343,7 @@ def eval_cases(ctx, coq):
     terms = [flat(tag, data) for tag, data, meta in coq.items]
     # sentinel: a case that must be reported as failing (def f(a): f(| is index 0, not 1)
     terms.append(flat('TI', ([('a', PK)], [(0, '', False)], 1)))
-    fails, err = common.coq_failing(IMPORTS, 'run_flat', terms, shard=max(400, min(2500, len(terms) // 16 + 1)), defs=DEFS)
+    fails, err = common.coq_failing(IMPORTS, 'run_flat', terms, shard=max(1500, len(terms) // 8 + 1), defs=DEFS, timeout=1800)
     if err:
         raise RuntimeError('coq evaluation failed: ' + err)
     if len(terms) - 1 not in fails:
